@@ -28,6 +28,7 @@ import (
 	"go.uber.org/multierr"
 	pb "google.golang.org/protobuf/proto"
 
+	"github.com/oxia-db/oxia/common/channel"
 	"github.com/oxia-db/oxia/common/constant"
 	time2 "github.com/oxia-db/oxia/common/time"
 
@@ -243,6 +244,17 @@ func (d *db) ProcessWrite(b *proto.WriteRequest, commitOffset int64, timestamp u
 	timer := d.batchWriteLatencyHisto.Timer()
 	defer timer.Done()
 
+	// Remember the prefix of the sequential keys (the request key is replaced by the generated one)
+	var sequencePrefixes map[int]string
+	for i, putReq := range b.Puts {
+		if len(putReq.GetSequenceKeyDelta()) > 0 {
+			if sequencePrefixes == nil {
+				sequencePrefixes = map[int]string{}
+			}
+			sequencePrefixes[i] = putReq.Key
+		}
+	}
+
 	batch := d.kv.NewWriteBatch()
 	notifications, res, err := d.applyWriteRequest(b, batch, commitOffset, timestamp, updateOperationCallback)
 	if err != nil {
@@ -270,6 +282,14 @@ func (d *db) ProcessWrite(b *proto.WriteRequest, commitOffset int64, timestamp u
 
 	if notifications != nil {
 		d.notificationsTracker.UpdatedCommitOffset(commitOffset)
+	}
+
+	// Publish the new sequential keys again now that they are readable from the db:
+	// a waiter that registered while the batch was in flight did not find them there
+	for i, prefixKey := range sequencePrefixes {
+		if i < len(res.Puts) && res.Puts[i].Status == proto.Status_OK {
+			d.sequenceWaiterTracker.SequenceUpdated(prefixKey, res.Puts[i].GetKey())
+		}
 	}
 
 	if err := batch.Close(); err != nil {
@@ -318,7 +338,8 @@ func (d *db) GetSequenceUpdates(prefixKey string) (SequenceWaiter, error) {
 		err = multierr.Append(err, sw.Close())
 		return nil, err
 	} else if it.Valid() {
-		sw.och.WriteLast(it.Key())
+		// A newer key might have been published since the waiter was registered: never override it
+		channel.PushNoBlock(sw.och.Ch(), it.Key())
 	}
 
 	_ = it.Close()
